@@ -203,6 +203,7 @@ func vh_C04_L1_snap_tokens() {
 	vassert(a.getState() == established && b.getState() == established, "both sides are established")
 	vassert(a.useInterleaving == (ilA && ilB) && b.useInterleaving == (ilA && ilB), "interleaving is on exactly when both enabled it")
 	vassert(a.useIForwardTSN == a.useInterleaving && b.useIForwardTSN == b.useInterleaving, "the forward-TSN variant matches interleaving")
+	vassert(a.useForwardTSN == !a.useInterleaving && b.useForwardTSN == !b.useInterleaving, "plain FORWARD-TSN otherwise: partial reliability stays available on both sides")
 	vassert(a.sendZeroChecksum == zB && b.sendZeroChecksum == zA, "each side sends zero checksums only if the other declared them acceptable")
 	vassert(a.peerLastTSN() == initB.initialTSN-1 && b.peerLastTSN() == initA.initialTSN-1, "each side expects the peer's initial TSN")
 	vassert(a.peerVerificationTag == initB.initiateTag && b.peerVerificationTag == initA.initiateTag, "verification tags come from the peer's token")
